@@ -6,7 +6,7 @@ package curves
 
 //@ iface (c SpeedCurve).Evaluate() (value int, err error)
 //@   ensures[C06.range C07] err == nil ==> 0 <= value && value <= 255
-//@   modifies each(*LinearSpeedCurve).Value, each(*FunctionSpeedCurve).Value, each(*PidSpeedCurve).Value, lastAvgRead, lastValue, lastInterp, segLo, segHi, each(*util.PidLoop).integral, each(*util.PidLoop).error, each(*util.PidLoop).lastTime, procWorld, started, lastReadFailed
+//@   modifies memberVals, memberCount, each(*LinearSpeedCurve).Value, each(*FunctionSpeedCurve).Value, each(*PidSpeedCurve).Value, lastAvgRead, lastValue, lastInterp, segLo, segHi, each(*util.PidLoop).integral, each(*util.PidLoop).error, each(*util.PidLoop).lastTime, procWorld, started, lastReadFailed
 
 // ---- registry ---------------------------------------------------------------------------------------
 //@ ghost var curveReg gset[string]
@@ -39,3 +39,50 @@ package curves
 //@   ensures[C06.minmax]  c.Config.Linear.Steps == nil ==> value == linRamp(lastAvgRead, float64(c.Config.Linear.Min) * 1000.0, float64(c.Config.Linear.Max) * 1000.0)
 //@   ensures[C06.steps]   c.Config.Linear.Steps != nil ==> value == int(round(lastInterp))
 //@   modifies c.Value, lastAvgRead, lastInterp, segLo, segHi
+
+//@ ghost var memberVals gmap[int]int
+//@ ghost var memberCount int
+//@ pure fnTypeOK(t string) bool = t == "sum" || t == "difference" || t == "delta" || t == "minimum" || t == "maximum" || t == "average"
+//@ pure byteVals(a []int) bool = forall j :: 0 <= j && j < len(a) ==> 0 <= a[j] && a[j] <= 255
+
+//@ func (*FunctionSpeedCurve).Evaluate
+//@   props C06
+//@   requires c.Config.Function != nil && fnTypeOK(c.Config.Function.Type)
+//@   requires len(c.Config.Function.Curves) >= 1 && len(c.Config.Function.Curves) <= 100000
+//@   requires forall i :: 0 <= i && i < len(c.Config.Function.Curves) ==> c.Config.Function.Curves[i] in curveReg
+//@   ghostret memberVals := seqof(values)
+//@   ghostret memberCount := len(values)
+//@   ensures[C06.range.sum]  err == nil && c.Config.Function.Type == "sum" ==> 0 <= value && value <= 255
+//@   ensures[C06.range.difference] err == nil && c.Config.Function.Type == "difference" ==> 0 <= value && value <= 255
+//@   ensures[C06.range.delta] err == nil && c.Config.Function.Type == "delta" ==> 0 <= value && value <= 255
+//@   ensures[C06.range.minimum] err == nil && c.Config.Function.Type == "minimum" ==> 0 <= value && value <= 255
+//@   ensures[C06.range.maximum] err == nil && c.Config.Function.Type == "maximum" ==> 0 <= value && value <= 255
+//@   ensures[C06.range.average] err == nil && c.Config.Function.Type == "average" ==> 0 <= value && value <= 255
+//@   ensures[C06.range]   err == nil ==> 0 <= value && value <= 255
+//@   ensures[C06.current] err == nil ==> c.Value == value
+//@   ensures[C06.members] err == nil ==> memberCount == len(c.Config.Function.Curves) && (forall j :: 0 <= j && j < memberCount ==> 0 <= memberVals[j] && memberVals[j] <= 255)
+//@   ensures[C06.sum]     err == nil && c.Config.Function.Type == "sum" ==> value == min(255, sumto(memberVals, memberCount))
+//@   ensures[C06.difference] err == nil && c.Config.Function.Type == "difference" ==> value == max(0, 2 * memberVals[0] - sumto(memberVals, memberCount))
+//@   ensures[C06.average] err == nil && c.Config.Function.Type == "average" ==> value == sumto(memberVals, memberCount) / memberCount
+//@   ensures[C06.minimum] err == nil && c.Config.Function.Type == "minimum" ==> (forall j :: 0 <= j && j < memberCount ==> value <= memberVals[j]) && (exists j :: 0 <= j && j < memberCount && value == memberVals[j])
+//@   ensures[C06.maximum] err == nil && c.Config.Function.Type == "maximum" ==> (forall j :: 0 <= j && j < memberCount ==> value >= memberVals[j]) && (exists j :: 0 <= j && j < memberCount && value == memberVals[j])
+// (attempted, not counted: C06.delta "value == largest - smallest member" does not discharge within the time limit; its range clause does)
+//@   modifies memberVals, memberCount, each(*LinearSpeedCurve).Value, each(*FunctionSpeedCurve).Value, each(*PidSpeedCurve).Value, lastAvgRead, lastValue, lastInterp, segLo, segHi, each(*util.PidLoop).integral, each(*util.PidLoop).error, each(*util.PidLoop).lastTime, procWorld, started, lastReadFailed
+//@   loop 1 "for _, curveId := range c.Config.Function.Curves"
+//@     invariant -1 <= rangeindex && rangeindex < len(c.Config.Function.Curves) && len(curves) == rangeindex + 1 && (arrayOf(curves) == 0 || arrayOf(curves) >= old(W)) && (len(curves) == 0 ==> cap(curves) == 0)
+//@     invariant forall j :: 0 <= j && j < len(curves) ==> curves[j] != nil
+//@   loop 2 "for _, curve := range curves"
+//@     invariant -1 <= rangeindex && rangeindex < len(curves) && len(values) == rangeindex + 1 && (arrayOf(values) == 0 || arrayOf(values) >= old(W)) && (len(values) == 0 ==> cap(values) == 0) && byteVals(values)
+//@     invariant len(curves) == len(c.Config.Function.Curves) && c.Config.Function == old(c.Config.Function) && fnTypeOK(c.Config.Function.Type) && (forall j :: 0 <= j && j < len(curves) ==> curves[j] != nil)
+//@   loop 3 "for _, v := range values"
+//@     invariant -1 <= rangeindex && rangeindex < len(values) && byteVals(values) && len(values) == len(curves) && len(curves) >= 1 && 0 <= sum && sum <= 255 * (rangeindex + 1) && sum == sumto(seqof(values), rangeindex + 1)
+//@   loop 4 "for idx, v := range values"
+//@     invariant -1 <= rangeindex && rangeindex < len(values) && byteVals(values) && len(values) == len(curves) && len(curves) >= 1 && (rangeindex == -1 ==> difference == 0) && (rangeindex >= 0 ==> difference <= values[0] && difference >= values[0] - 255 * rangeindex && difference == 2 * values[0] - sumto(seqof(values), rangeindex + 1))
+//@   loop 5 "for _, v := range values"
+//@     invariant -1 <= rangeindex && rangeindex < len(values) && byteVals(values) && len(values) == len(curves) && len(curves) >= 1 && fin(dmin) && fin(dmax) && 0.0 <= dmin && dmin <= dmax && dmax <= 255.0 && (exists i, j :: 0 <= i && i < len(values) && 0 <= j && j < len(values) && real(dmax) == real(values[i]) && real(dmin) == real(values[j])) && (forall k :: 0 <= k && k <= rangeindex ==> real(dmin) <= real(values[k]) && real(values[k]) <= real(dmax))
+//@   loop 6 "for _, v := range values"
+//@     invariant -1 <= rangeindex && rangeindex < len(values) && byteVals(values) && len(values) == len(curves) && len(curves) >= 1 && fin(min) && 0.0 <= min && min <= 255.0 && (forall k :: 0 <= k && k <= rangeindex ==> real(min) <= real(values[k])) && (real(min) == 255.0 || (exists j :: 0 <= j && j <= rangeindex && real(min) == real(values[j])))
+//@   loop 7 "for _, v := range values"
+//@     invariant -1 <= rangeindex && rangeindex < len(values) && byteVals(values) && len(values) == len(curves) && len(curves) >= 1 && fin(max) && 0.0 <= max && max <= 255.0 && (forall k :: 0 <= k && k <= rangeindex ==> real(max) >= real(values[k])) && (real(max) == 0.0 || (exists j :: 0 <= j && j <= rangeindex && real(max) == real(values[j])))
+//@   loop 8 "for _, v := range values"
+//@     invariant -1 <= rangeindex && rangeindex < len(values) && byteVals(values) && len(values) == len(curves) && len(curves) >= 1 && 0 <= total && total <= 255 * (rangeindex + 1) && total == sumto(seqof(values), rangeindex + 1)
